@@ -599,6 +599,7 @@ func cmdCheck(argv []string) int {
 			}
 		}
 		updateBaseline(id, ok)
+		updateSignatureBaseline(ld)
 	}
 	if violations > 0 {
 		return 1
@@ -899,4 +900,78 @@ func untriggered(ld *Loaded, ex *Exec, id string) []string {
 	}
 	sort.Strings(out)
 	return out
+}
+
+// Signature baseline: the parameter and result names the contracts were written against. A later rename of a
+// parameter or named result (a harmless edit) must not make the contracts unreadable: paramNames binds the recorded
+// name to the same position when the function still has as many parameters of it.
+type sigNames struct {
+	Params  []string            `json:"params"`
+	Results []string            `json:"results"`
+	Allocs  []string            `json:"allocs,omitempty"` // named address-taken locals, in program order
+	Phis    map[string][]string `json:"phis,omitempty"`   // per loop ordinal: named loop-carried locals, in header order
+}
+
+// localNames lists the named locals a loop invariant can mention, in a position-stable order.
+func localNames(fn *ssa.Function) ([]string, map[string][]string) {
+	var allocs []string
+	for _, b := range fn.Blocks {
+		for _, ins := range b.Instrs {
+			if a, ok := ins.(*ssa.Alloc); ok && a.Comment != "" {
+				allocs = append(allocs, a.Comment)
+			}
+		}
+	}
+	phis := map[string][]string{}
+	if len(fn.Blocks) > 0 {
+		for _, lp := range computeLoops(fn).Loops {
+			var l []string
+			for _, ins := range lp.Header.Instrs {
+				if phi, ok := ins.(*ssa.Phi); ok && phi.Comment != "" {
+					l = append(l, phi.Comment)
+				}
+			}
+			phis[fmt.Sprintf("%d", lp.Ordinal)] = l
+		}
+	}
+	return allocs, phis
+}
+
+var sigBaseline map[string]sigNames
+
+func loadSignatureBaseline() map[string]sigNames {
+	if sigBaseline != nil {
+		return sigBaseline
+	}
+	sigBaseline = map[string]sigNames{}
+	if b, err := os.ReadFile(filepath.Join(verifRoot, "signatures.baseline.json")); err == nil {
+		json.Unmarshal(b, &sigBaseline)
+	}
+	return sigBaseline
+}
+
+func updateSignatureBaseline(ld *Loaded) {
+	m := loadSignatureBaseline()
+	for full := range ld.Specs.Contracts {
+		name := full
+		if i := strings.Index(name, "@"); i >= 0 {
+			name = name[:i]
+		}
+		fn := ld.Fns[name]
+		if fn == nil {
+			continue
+		}
+		var s sigNames
+		for _, p := range fn.Params {
+			s.Params = append(s.Params, p.Name())
+		}
+		r := fn.Signature.Results()
+		for i := 0; i < r.Len(); i++ {
+			s.Results = append(s.Results, r.At(i).Name())
+		}
+		s.Allocs, s.Phis = localNames(fn)
+		m[strings.ReplaceAll(name, modulePrefix+"/", "")] = s
+	}
+	b, _ := json.MarshalIndent(m, "", " ")
+	os.WriteFile(filepath.Join(verifRoot, "signatures.baseline.json"), b, 0o644)
 }
